@@ -80,7 +80,7 @@ func c02r1(c *Ctx) {
 		n += len(tg)
 		c.mustPassReturns(rule, fn, tg, cuts, "AEAD verification ("+verifier.Name()+" with nil error) or a crypto-off edge")
 	}
-	c.MinCount(rule, "success returns", n, 5)
+	c.MinCount(rule, "success returns", n, 3)
 }
 
 // C02-R2: only the two frame receivers read the connection.
@@ -104,7 +104,7 @@ func c02r2(c *Ctx) {
 		poss[cs.Fn] = cs.Call.Pos()
 	}
 	c.whoMayDeep(rule, "call readWithContext", fns, poss, fnSet(rf, rfe))
-	c.MinCount(rule, "readWithContext call sites", len(fns), 4)
+	c.MinCount(rule, "readWithContext call sites", len(fns), 1)
 	var rd, wr []*ssa.Function
 	for _, a := range c.fieldAccesses(reader) {
 		poss[a.Fn] = a.Instr.Pos()
@@ -141,7 +141,7 @@ func c02r2(c *Ctx) {
 		}
 	}
 	c.Ok(rule, "conn-direct-io", "no Read/Write is invoked on a value loaded from Stream.conn", token.NoPos)
-	c.MinCount(rule, "loads of Stream.conn inspected", nconn, 5)
+	c.MinCount(rule, "loads of Stream.conn inspected", nconn, 1)
 }
 
 // C02-R3: position and header binding of the AEAD call.
@@ -288,7 +288,7 @@ func c02r3(c *Ctx) {
 			c.Check(c.filledBy(cs.Fn, h, rwc.Object(), 2, 3), rule, fnName(cs.Fn)+"#header-arg", "the header handed to decryptDataWithAAD is the buffer read from the wire", "the header handed to decryptDataWithAAD is not the buffer filled by readWithContext", cs.Call.Pos())
 		}
 	}
-	c.MinCount(rule, "decryptDataWithAAD call sites in receivers", n, 2)
+	c.MinCount(rule, "decryptDataWithAAD call sites in receivers", n, 1)
 }
 
 // C02-R4: reassembly uses the authenticated end flag.
@@ -656,7 +656,7 @@ func c02r7(c *Ctx) {
 			c.Check(ok, rule, fnName(fn)+"#ensureData-error", "an ensureData error is swallowed only when it is identical to io.EOF (end of message)", "an ensureData error other than the io.EOF sentinel can be swallowed: a truncated stream would be delivered as a complete value", pos, wit...)
 		}
 	}
-	c.MinCount(rule, "ensureData call sites in package message", n, 10)
+	c.MinCount(rule, "ensureData call sites in package message", n, 3)
 	// the frame readers return only freshly constructed errors
 	for _, name := range []string{"(*Stream).ReceiveFrameWithEnd", "(*Stream).ReceiveFrame", "(*Stream).ReadFrame"} {
 		fn := c.needFn(rule, "stream", name)
